@@ -157,6 +157,9 @@ def run(ctx):
     def apply_all(hin, abs_e, envs, sig, extra_feats=(), aliases=('A',), text=None, remake=None):
         is_pred = bool(getattr(hin, 'is_predicate', False))
         cond = hin.condition if is_pred else hin
+        if S.power_bomb(cond):
+            ctx.skip('power-too-large-to-fold')
+            return
         calls = [('simplify', (hin,))]
         if cond.can_be_bool:
             calls.append(('split_and', (hin,)))
